@@ -247,6 +247,16 @@ def _l(xs):
     return C.clist(["%d" % x for x in xs])
 
 
+def _e(xs):
+    """list of creation numbers (< 64) as one base-64 numeral with a leading sentinel 1"""
+    n = 1
+    for x in reversed(xs):
+        if not 0 <= x < 64:
+            raise C.HarnessError("creation number out of range for the compact encoding: %r" % (x,))
+        n = n * 64 + x
+    return "%d%%N" % n
+
+
 def _steps(case, obs):
     """[(model ops, snapshot, kinds)] with requested bases substituted for the direct operations."""
     steps = obs.get("steps", [])
@@ -286,9 +296,9 @@ def coq_case(case, obs, mode):
         sn = []
         for row in snap:
             i, bs, sro, iro, ioe, ext, extns, prov = row
-            sn.append("(%d, %s, %s, %s, %s, %s, %s, %s, %s)" % (
-                i, C.cbool(kinds.get(i) == "iface"), _l(bs), _l(sro), _l(iro), _l(ioe), _l(ext), _l(extns),
-                "None" if prov is None else "Some " + _l(prov)))
+            sn.append("sn %d %s %s %s %s %s %s %s %s" % (
+                i, C.cbool(kinds.get(i) == "iface"), _e(bs), _e(sro), _e(iro), _e(ioe), _e(ext), _e(extns),
+                "0%N" if prov is None else _e(prov)))
         steps.append("(%s, %s)" % (C.clist(mops), C.clist(sn)))
     return "(%s, %s)" % (C.cbool("exc" in obs), C.clist(steps))
 
